@@ -63,7 +63,8 @@ type updModel struct {
 func c15Sequence(seq []string) (msg, kind string) {
 	svc := NewSvc()
 	svc.Put("d")
-	st, err := setec.NewStore(context.Background(), setec.StoreConfig{Client: svc, Secrets: []string{"d"}, PollInterval: -1, Logf: func(string, ...any) {}})
+	cache := &HCache{}
+	st, err := setec.NewStore(context.Background(), setec.StoreConfig{Client: svc, Secrets: []string{"d"}, Cache: cache, PollInterval: -1, Logf: func(string, ...any) {}})
 	if err != nil {
 		return err.Error(), "harness"
 	}
@@ -73,10 +74,17 @@ func c15Sequence(seq []string) (msg, kind string) {
 	for i, ev := range seq {
 		where := fmt.Sprintf("step %d (%s) of [%s]", i, ev, strings.Join(seq, " "))
 		switch ev {
+		case "cachefail":
+			cache.FailNext = true
 		case "install":
 			svc.Put("d")
-			if err := st.Refresh(context.Background()); err != nil {
+			armed := cache.FailNext
+			if err := st.Refresh(context.Background()); err != nil && !armed {
 				return where + ": Refresh: " + err.Error(), "harness"
+			}
+			// whether or not the cache could be written, the new version is installed
+			if _, val, _ := svc.Active("d"); string(st.Secret("d").Get()) != val {
+				return where + ": the poll did not install the new version", "harness"
 			}
 			for _, u := range ups {
 				u.pending = true
@@ -181,8 +189,8 @@ func c15Sequential(env *report.Env, rep *report.Report) {
 		depth = 8
 	}
 	sec := rep.Add(&report.Section{Name: fmt.Sprintf("seq-all-sequences-depth%d", depth), Engine: "seqx", Exhaustive: true, Extra: map[string]int64{},
-		Rule: "every sequence over {install (server change + poll), Get(u1), Get(u2), NewUpdater, toggle builder-fails-next} up to the depth on a real Store, against a model of the level-triggered notification; non-trivial = sequences containing an install followed by a Get"})
-	evs := []string{"install", "get1", "get2", "new", "failnext"}
+		Rule: "every sequence over {install (server change + poll), Get(u1), Get(u2), NewUpdater, toggle builder-fails-next, make the next cache write fail} up to the depth on a real Store, against a model of the level-triggered notification; non-trivial = sequences containing an install followed by a Get"})
+	evs := []string{"install", "get1", "get2", "new", "failnext", "cachefail"}
 	var seq []string
 	best := map[string][]string{}
 	bestMsg := map[string]string{}
